@@ -53,6 +53,9 @@ C03Labels(c) ==
   (IF c.frameMut.p # c.p \/ c.frameMut.m # c.m \/ c.frameMut.bs # c.bs THEN {"result-aliases-input"} ELSE {})
   \cup
   (IF c.othersAfter # c.othersBefore THEN {"results-share-a-map"} ELSE {})
+  \cup
+  \* a pattern that has been matched, then edited where it is, is matched as what it is now (nothing about it is remembered)
+  (IF "editSame" \in DOMAIN c /\ ~c.editSame THEN {"earlier-pattern-remembered"} ELSE {})
 
 Labels(c) == [c01 |-> C01Labels(c), c02 |-> C02Labels(c), c03 |-> C03Labels(c)]
 
